@@ -31,6 +31,14 @@ func baseMessages() [][]byte {
 	}
 }
 
+func isSpecialOp(k string) bool {
+	switch k {
+	case "mnt", "umnt", "umntall", "dump", "export", "mountnull", "rawmsg", "rawbytes":
+		return true
+	}
+	return false
+}
+
 // special executes the operations that are not NFS requests with a model
 // counterpart: MOUNT procedures, raw (mutated) messages, transport faults.
 func (x *seqRun) special(i int, op *Op) bool {
